@@ -175,6 +175,55 @@ def default_substitute_rule(res, fx):
         raise AnalysisBroken('DEFAULT-SUBSTITUTE: only %d Matches() implementations read a _default member' % n_ds)
 
 
+def parsed_name_used_rule(res, fx, rule='PARSED-USED'):
+    """`name:index|default` is documented syntax: what ParseFieldName() splits off the token has to reach the filter that is built"""
+    res.rule(rule, 'in the expression parser every local that LexerToken::ParseFieldName() fills in (field name, value index, default value) flows into an argument of the CreateSubexpression() call '
+                   'that follows it (directly or through locals computed from it): a result that is parsed and then dropped means the un-split token is used instead', floor=4)
+    n = 0
+    for f in sorted((f for f in fx.funcs.values() if f.full and 'CreateQueryFilterFromExpression' in f.q), key=lambda f: (f.file, f.line)):
+        subs = [c for c in f.walk() if c.is_call() and (c.get('q') or '').endswith('::CreateSubexpression')]
+        for c in f.walk():
+            if not (c.is_call() and re.search(r'LexerToken::ParseFieldName(Aux)?$', c.get('q') or '')):
+                continue
+            outs = []
+            for a in c.args():
+                a0 = A.strip_casts(a)
+                if a0['k'] == 'UnaryOperator' and a0.get('op') == '&':
+                    a0 = A.strip_casts(a0['ch'][0])
+                if a0['k'] == 'DeclRefExpr' and a0.get('d') is not None and not a0.type().startswith('const '):
+                    outs.append(a0)
+            # the CreateSubexpression call(s) reachable from this parse
+            cp = P.pos_of(f, c)
+            nxt = [s_ for s_ in subs if cp and P.pos_of(f, s_) and (C.can_reach(f, cp, set([P.pos_of(f, s_)])) or (cp[0] == P.pos_of(f, s_)[0] and cp[1] < P.pos_of(f, s_)[1]))]
+            for o in outs:
+                n += 1
+                ok = bool(nxt)
+                for s_ in nxt:
+                    need = set(x.get('d') for a in s_.args() for x in a.walk() if x['k'] == 'DeclRefExpr' and x.get('d') is not None)
+                    changed = True
+                    while changed:
+                        changed = False
+                        for v in f.walk():
+                            rhs = None
+                            if v['k'] == 'VarDecl' and v.get('d') in need and v['ch']:
+                                rhs = v['ch'][0]
+                            elif v['k'] == 'BinaryOperator' and v.get('op') == '=' and A.strip_casts(v['ch'][0]).get('d') in need:
+                                rhs = v['ch'][1]
+                            if rhs is not None:
+                                for x in rhs.walk():
+                                    if x['k'] == 'DeclRefExpr' and x.get('d') is not None and x['d'] not in need:
+                                        need.add(x['d'])
+                                        changed = True
+                    ok = ok and o['d'] in need
+                res.ob(rule, f.where(c), '%s line %s: `%s` filled in by ParseFieldName() reaches CreateSubexpression()' % (f.q.split('::')[-1], c.get('l'), o.get('n')), ok, function=f.q,
+                       key='%s|%s|%s' % (rule, f.q, o.get('n')),
+                       message='%s lets LexerToken::ParseFieldName() split the token into `%s` but never hands that result to CreateSubexpression(): the filter is built from the un-split token, so for '
+                               '"age:1 == 30" or "age|18 <= 21" it looks for a field literally named "age:1" / "age|18" — the documented `name:index` and `name|default` forms never match the field they name'
+                               % (f.q, o.get('n')))
+    if n < 4:
+        raise AnalysisBroken('%s: only %d ParseFieldName() results found in the expression parser' % (rule, n))
+
+
 def run(res, tier):
     fx = common.load_units(res, ['regex/QueryFilter.cpp'], fn_regex=r'QueryFilter|Lexer')
     res.functions_analysed = sum(1 for f in fx.funcs.values() if f.full)
@@ -411,6 +460,7 @@ def run(res, tier):
     if n_iu < 4:
         raise AnalysisBroken('INDEX-USED: only %d field reads found in the value filters' % n_iu)
     default_substitute_rule(res, fx)
+    parsed_name_used_rule(res, fx)
     res.explanation = ('Static decision of the archiving structure of the query filters: the archive operations of every SaveToArchive/SetFromArchive pair are extracted from the resolved AST (field-name literal, '
                        'accessor kind, default argument, base-class chaining) and compared; the data members read under Matches (through same-class helpers) must be read by the save side and written by the load '
                        'side in the class chain; factory, TypeCode() and enum are compared as tables; no Matches removes const; factory results are null-tested. Truth tables and the expression grammar are not decided.')
